@@ -151,9 +151,10 @@ CHECKS = {
             'classes and terminates (variants); mj_dsuMerge ends in Valid(parent, W) for the explicitly given witness W = exactly the two '
             'classes united under the smaller root, everything else unchanged, error exactly for two static endpoints; mj_dsuAssign gives -1 '
             'to inactive trees, equal ids exactly to trees of one class, ids 0..count-1 ascending with the smallest tree of the class '
-            '(ghost counting function with two induction lemmas), full path compression and the dof count.',
+            '(ghost counting function with two induction lemmas), full path compression and the dof count; treeNext (generic scan of a Jacobian '
+            'row, dense and sparse): yields the tree of the first remaining entry whose tree differs from the previous one, -2 only when none is left.',
             'Trusted: VC generator, clang, z3/cvc5; induction schema for the two counting lemmas. Not under contract (listed): '
-            'unionConstraintTrees / treeNext (which trees a row touches), mj_island map construction, mj_floodFill. Bounded stand-in '
+            'unionConstraintTrees / treeIterInit (which rows are scanned, how their trees are merged), mj_island map construction, mj_floodFill. Bounded stand-in '
             '(not counted): the compiled union-find vs brute-force connected components on all short merge sequences over small forests.',
             'contracts with ghost (logical) parameters + inductive loop invariants and variants, z3 LIA+arrays+quantifiers; bounded native stand-in'),
     'C34': ('DESIGN.md section 4 / C34',
